@@ -27,6 +27,8 @@ func main() {
 		text = sections(repo)
 	case "taggers":
 		text = taggers(repo)
+	case "language":
+		text = language(repo)
 	default:
 		die("unknown translator %q", name)
 	}
